@@ -4,9 +4,10 @@ import pyimpl as P
 from oracle_util import *  # noqa
 from protocol import from_real, KEYS
 import h2bars_util as U
+import barmut_util as BM
 
 ID = "C10"
-LEAN_MODULE = ["SCoda.Props.C10", "SCoda.Props.C11b", "SCoda.Props.ElemTie", "SCoda.Props.Gaps", "SCoda.Props.StaticLink", "SCoda.Props.C10Ch", "SCoda.Props.ElemTieCh"]
+LEAN_MODULE = ["SCoda.Props.C10", "SCoda.Props.C11b", "SCoda.Props.ElemTie", "SCoda.Props.Gaps", "SCoda.Props.StaticLink", "SCoda.Props.C10Ch", "SCoda.Props.ElemTieCh", "SCoda.Lemmas.BarChL"]
 LEVEL = "proof"
 CLAUSES = [
     ("an accepted bar lasts exactly numerator*4/denominator quarter notes (its capacity in ticks, the int-typed value of the Python expression)",
@@ -28,34 +29,54 @@ CLAUSES = [
      "every run (Gen/ElemFns.lean, on top of the translated Sequence wrapper) and proved equal to the model `mkBar` / `Bar.copy` / `barsToSeq` the theorems "
      "above are about: same BarException or same bar, for every wrapper state of the sequence, every sequence and every signature with 0 <= numerator, "
      "0 < denominator (the domain on which Python's int(n*PPQN/(d/4)) is the model's integer capacity); the constructed bar's sequence has its relative view "
-     "fresh and its absolute view stale (Bar.copy = the model's `Bar.copy` for a bar whose default_channel is 0 or None; every channel: next clause)",
+     "fresh and its absolute view stale (Bar.copy = the model's `Bar.copy` for a bar whose own time-signature message is on channel 0; every channel: next clause)",
      ["SCoda.ElemTie.barInit_eq", "SCoda.ElemTie.barInit_toBar", "SCoda.ElemTie.barInit_flags", "SCoda.ElemTie.barCopy_toBar",
       "SCoda.ElemTie.barCopy_constructed", "SCoda.ElemTie.barTranspose_eq", "SCoda.ElemTie.barIsEmpty_eq", "SCoda.ElemTie.barsToSequence_eq",
       "SCoda.ElemTie.barsToSequence_constructed", "SCoda.ElemTie.pyIntOf_barCap", "SCoda.ElemTie.translated_covered"]),
-    ("EVERY default_channel (audit round 3 R7; finding D37 and its repair): Bar.__init__ and Bar.copy as re-translated from bar.py are the "
-     "channel-parametrised model `mkBarCh` / `Bar.copyCh` (Model/BarCh.lean: `mkBar` line by line, the leading time-signature event on channel "
-     "default_channel, None -> 0; `mkBar` is the instance 0, and `mkBarCh` is `mkBar` with that one event moved to the channel, so duration, leading "
-     "signature, events and every rejection of the clauses above hold for every channel); the constructed bar remembers default_channel; "
-     "WHENEVER Bar.copy() SUCCEEDS THE COPY CARRIES THE BAR'S default_channel AND ITS LEADING TIME-SIGNATURE EVENT IS ON THAT CHANNEL "
-     "(barCopy_default_channel — the statement whose failure was D37), without any hypothesis: every bar, wrapper state, signature; and copying a bar built by "
-     "the constructor (0 <= numerator, 0 < denominator, 0 <= PPQN, any default_channel) always succeeds, leaves the bar unchanged and yields an "
-     "equal bar: same signature, key, default_channel, timed events (the leading signature on the same channel among them) and duration. "
-     "Negative control: the UNREPAIRED copy (channel 0 whatever the bar was built with) of the recorded D37 bar (channel 3) has different events "
-     "(kernel-checked)",
-     ["SCoda.ElemTie.barInit_eq_ch", "SCoda.ElemTie.barInit_toBar_ch", "SCoda.ElemTie.barInit_shape", "SCoda.ElemTie.barCopy_toBar_ch",
-      "SCoda.ElemTie.barCopy_constructed_ch", "SCoda.ElemTie.barCopy_default_channel", "SCoda.ElemTie.barCopy_of_constructed",
-      "SCoda.ElemTieCh.barCopy_equal", "SCoda.C10Ch.bar_ch_eq", "SCoda.C10Ch.bar_duration_ch", "SCoda.C10Ch.bar_leading_sig_ch",
-      "SCoda.C10Ch.bar_events_ch", "SCoda.C10Ch.bar_copy_ch", "SCoda.C10Ch.unrepaired_copy_differs"]),
+    ("EVERY default_channel AND EVERY LATER STATE OF THE BAR (audit round 3 R7, finding D37 and its repair; audit round 4 D1 / C6, the second repair): "
+     "Bar.__init__ as re-translated from bar.py is the channel-parametrised model `mkBarCh` (Model/BarCh.lean: `mkBar` line by line, the leading "
+     "time-signature event on channel default_channel, None -> 0; `mkBar` is the instance 0, and `mkBarCh` is `mkBar` with that one event moved to the "
+     "channel, so duration, leading signature, events and every rejection of the clauses above hold for every channel); the bar does not keep "
+     "default_channel. Bar.copy as re-translated (barCopy_eq, no hypothesis) reads the bar's relative view through the `rel` property (a stale view "
+     "is regenerated and stays regenerated in the original; both views stale: SequenceException), takes the channel of its FIRST TIME_SIGNATURE "
+     "message AS IT IS NOW (0 if there is none) and constructs the copy on it — the model `Bar.copyOwn`. WHENEVER Bar.copy() SUCCEEDS THE COPY'S "
+     "LEADING TIME-SIGNATURE EVENT IS ON THAT CHANNEL (barCopy_sig_channel: every bar record, wrapper state, signature — no hypothesis). "
+     "COPYING A BAR YIELDS AN EQUAL BAR FOR EVERY BAR WHOSE CURRENT RELATIVE VIEW IS IN BAR SHAPE (barCopy_equal_any; BarChL.BarShape: starts with the "
+     "bar's signature message on some channel, no other signature message, non-negative waits adding up to the capacity, note-ons / note-offs "
+     "paired per (channel, pitch), no repeated key signature; 0 <= numerator, 0 < denominator, 0 <= PPQN): the copy always succeeds, the original is "
+     "unchanged (but for a regenerated stale view), same signature, key, timed events (the leading signature on the channel it is on NOW among them) "
+     "and duration, and the copy is in bar shape again. The constructor establishes the shape for every default_channel (barInit_barShape; "
+     "barCopy_equal is the instance 'not edited since'), Sequence.set_channel keeps it and moves the signature event as long as the notes still "
+     "pair up afterwards (setChannel_barShape, barCopy_after_setChannel: build on any channel, set_channel(c'), copy — the copy equals the bar as it is "
+     "now, signature on c'), transpose without octave wrap likewise (shape_transposeRel). Limits, kernel-checked and replayed: set_channel that merges "
+     "overlapping notes of one pitch from two channels leaves a view that is not in bar shape and the copy has fewer events (merged_channels_copy_differs, "
+     "finding D44); a wrapping transpose re-quantises and may change the bar's length (finding D45). Negative controls on the audit's witness (built on "
+     "channel 3, then set_channel): the UNREPAIRED copy (channel 0 always) and the copy of f9ef398 (the channel stored at construction) both have events "
+     "that differ from the bar's (unrepaired_copy_differs, stored_channel_copy_differs, both_earlier_copies_differ)",
+     ["SCoda.ElemTie.barInit_eq_ch", "SCoda.ElemTie.barInit_toBar_ch", "SCoda.ElemTie.barInit_shape", "SCoda.ElemTie.barCopy_eq",
+      "SCoda.ElemTie.barCopy_toBar_own", "SCoda.ElemTie.barCopy_constructed_own", "SCoda.ElemTie.barCopy_sig_channel",
+      "SCoda.ElemTie.barCopy_default_channel", "SCoda.ElemTie.barCopy_of_constructed",
+      "SCoda.ElemTieCh.barCopy_equal_any", "SCoda.ElemTieCh.barInit_barShape", "SCoda.ElemTieCh.setChannel_barShape",
+      "SCoda.ElemTieCh.barCopy_after_setChannel", "SCoda.ElemTieCh.barCopy_equal", "SCoda.ElemTieCh.witness_wf",
+      "SCoda.BarChL.mkBarCh_shape", "SCoda.BarChL.shape_rebuild", "SCoda.BarChL.shape_setChannel", "SCoda.BarChL.shape_transposeRel",
+      "SCoda.C10Ch.bar_ch_eq", "SCoda.C10Ch.bar_duration_ch", "SCoda.C10Ch.bar_leading_sig_ch",
+      "SCoda.C10Ch.bar_events_ch", "SCoda.C10Ch.bar_copy_ch", "SCoda.C10Ch.bar_copy_own", "SCoda.C10Ch.bar_constructed_shape",
+      "SCoda.C10Ch.unrepaired_copy_differs", "SCoda.C10Ch.stored_channel_copy_differs", "SCoda.C10Ch.both_earlier_copies_differ",
+      "SCoda.C10Ch.merged_channels_copy_differs"]),
     ('the link through which the translated sequences_split_bars reads the signature and key queues (AbsoluteSequence.get_message_times_of_type, a hand-written definition in Model/StaticLib.lean) is what the TRANSLATED method computes on a freshly built list, read back through the heap (audit round 3 R1: an edit of that method now breaks this obligation)',
      ["SCoda.StaticLink.timesOfType_link", "SCoda.AbsTie2.getMessageTimesOfType_eq", "SCoda.AbsTie2.timesOfType_init"]),
 ]
 RULE = ("relative sequences shorter than / equal to / one tick longer than / longer than the capacity, on channel 0, another channel or three "
         "channels, with zero, one matching, one conflicting or two signature events, x 12 signatures x keys x default_channel (not passed, 0, the "
-        "track's channel, 5, 15) x wrapper states built from plain data (rel, abs, both, stale views, insort, churned); "
+        "track's channel, 5, 15) x wrapper states built from plain data (rel, abs, both, stale views, insort, churned); copy after mutation: "
+        "every second bar again with a random default_channel, 0-2 public mutators applied in place (Sequence.set_channel to 0 / an own / another "
+        "channel, Sequence.transpose and Bar.transpose by small intervals, octaves and intervals that wrap), then copied and judged against the "
+        "bar's CURRENT content; "
         "non-trivial = sequence has notes or a signature event")
 ASSUMPTIONS = ["model: SCoda.mkBar (Model/Bar.lean), tied by translation (ElemTie) and sampled by correspondence for default_channel = 0; for any other "
-               "default_channel the model is SCoda.mkBarCh (Model/BarCh.lean), tied by translation for every channel (ElemTie.barInit_eq_ch, "
-               "barCopy_toBar_ch), NOT sampled by correspondence (no driver op): on those inputs the real objects are judged by the oracle",
+               "default_channel the model is SCoda.mkBarCh / Bar.copyOwn (Model/BarCh.lean), tied by translation for every channel (ElemTie.barInit_eq_ch, "
+               "barCopy_toBar_own), NOT sampled by correspondence (no driver op): on those inputs the real objects are judged by the oracles "
+               "(`bar`, and `bar-copy-mut` for bars changed in place before they are copied)",
                "'an equal bar' is judged on plain data: same signature / key attributes, same timed events (every message field) and duration; the library's `==` "
                "is not the expectation (clause copy-eq only reports it when it contradicts equal data)",
                "a repeated identical signature is removed by the constructor's normalise() before the count, so it is accepted (DESIGN C10)"]
@@ -138,8 +159,64 @@ def o_bar(inp):
     return fails
 
 
+def o_bar_copy_mut(inp):
+    """copy after mutation (audit round 4, D1): the bar is built from plain data with the given default_channel, the public mutators `muts` are
+    applied to it in place, it is copied, and the copy is judged against what the bar shows NOW (attributes; timed events, every message field,
+    and duration of the bar's own relative view, read before the copy is taken) — never against what it was built from, and never through copy().
+    Taking the copy must not change what the original shows either."""
+    from scoda.elements.bar import Bar
+    from scoda.exceptions.bar_exception import BarException
+    rel = [tuple(m) for m in inp["rel"]]
+    n, d, key = inp["n"], inp["d"], inp["key"]
+    if d <= 0 or n < 0:
+        return [("~skip:signature-outside-the-domain", "")]
+    seq, supplied = U.build_state(rel, inp.get("state", "rel"))
+    kw = {} if inp.get("dch") is None else {"default_channel": inp["dch"]}
+    try:
+        b = Bar(seq, n, d, None if key is None else KEYS[key], **kw)
+    except BarException:
+        return [("~skip:bar-rejected", "")]
+    except Exception as e:
+        return [("raises", f"unexpected {type(e).__name__}: {e}")]
+    try:
+        for mut in inp.get("muts", []):
+            BM.apply_mut(b, mut)
+        before = BM.bar_state(b)
+    except Exception as e:
+        return [("~skip:mutator-raises:" + type(e).__name__, "")]
+    try:
+        c = b.copy()
+    except Exception as e:
+        return [("copy-mut", U.Detail(f"copy after {inp.get('muts', [])} raised {type(e).__name__}: {e}", raised=type(e).__name__,
+                                      unpaired=[list(k) for k in BM.unpaired(before["plain"])], dur=before["content"][1]))]
+    fails = BM.judge_copy(f"Bar(default_channel={inp.get('dch')!r}) after {inp.get('muts', [])}", before, BM.bar_state(b), c)
+    if c is b or c.sequence is b.sequence:
+        fails.append(("copy-mut", U.Detail("the copy shares the bar or its sequence object", shared=True)))
+    return fails
+
+
 def setup(ctx):
     ctx.oracle("bar", o_bar)
+    ctx.oracle("bar-copy-mut", o_bar_copy_mut)
+
+    def kf_d42(f):
+        # the bar's content at the time of the copy does not pair its notes per (channel, pitch) — what set_channel leaves behind when it moves
+        # overlapping notes of one pitch from two channels onto one — and bar and copy differ in note events of exactly those keys
+        return f["oracle"] == "bar-copy-mut" and f["clause"] == "copy-mut" and any(m[0] == "set_channel" for m in f["input"].get("muts", [])) \
+            and BM.is_merge_outcome(f)
+    ctx.kf_predicates["D44"] = kf_d42
+
+    def kf_d43(f):
+        # the history holds a transposition and the bar's own content read BEFORE the copy no longer lasts the bar's capacity (the wrap branch of
+        # Sequence.transpose re-quantised the note lengths through the absolute view): longer — copy() raised BarException; shorter — the copy
+        # holds the same events and is padded back to the capacity
+        d = U.data_of(f)
+        n, dd = f["input"]["n"], f["input"]["d"]
+        if not (f["oracle"] == "bar-copy-mut" and f["clause"] == "copy-mut" and dd > 0
+                and any(m[0] in ("transpose", "bar_transpose") for m in f["input"].get("muts", []))):
+            return False
+        return BM.is_requantised_outcome(d, 96 * n // dd)
+    ctx.kf_predicates["D45"] = kf_d43
 
     def kf_d28(f):
         # the signature's bar length is not a whole number of ticks at PPQN 24 (the denominator does not divide 96 * numerator)
@@ -161,6 +238,16 @@ def setup(ctx):
     ctx.kf_predicates["D37"] = kf_d37
 
 
+# audit round 4, D1: built on channel 3, moved to channel 0, then copied
+D37B_WITNESS = {"rel": [G.pm(ON, 3, None, note=60, vel=64), G.pm(WAIT, 3, 24), G.pm(OFF, 3, None, note=60)], "n": 4, "d": 4, "key": None, "dch": 3,
+                "muts": [["set_channel", 0]]}
+# D44: two channels hold overlapping notes of one pitch; set_channel merges them
+D42_EXAMPLE = {"rel": [G.pm(ON, 0, None, note=60, vel=64), G.pm(WAIT, 0, 12), G.pm(ON, 1, None, note=60, vel=64), G.pm(WAIT, 1, 24),
+                       G.pm(OFF, 0, None, note=60), G.pm(WAIT, 0, 24), G.pm(OFF, 1, None, note=60)], "n": 4, "d": 4, "key": None, "dch": 3,
+               "muts": [["set_channel", 0]]}
+# D45: a short note at the end of a 7/16 bar; the wrap branch of transpose re-quantises it past the bar line
+D43_EXAMPLE = {"rel": [G.pm(WAIT, 0, 40), G.pm(ON, 0, None, note=1, vel=64), G.pm(WAIT, 0, 2), G.pm(OFF, 0, None, note=1)], "n": 7, "d": 16, "key": 3,
+               "dch": 15, "muts": [["transpose", -12]]}
 D37_EXAMPLE = {"rel": [G.pm(ON, 3, None, note=60, vel=64), G.pm(WAIT, 3, 24), G.pm(OFF, 3, None, note=60)], "n": 4, "d": 4, "key": None, "dch": 3}
 
 
@@ -169,6 +256,10 @@ def generate(ctx):
     ctx.check("bar", {"rel": [], "n": 1, "d": 128, "key": None})         # D28: a 1/128 bar lasts 0 ticks
     ctx.check("bar", {"rel": [G.pm(WAIT, 0, 40)], "n": 3, "d": 7, "key": None})
     ctx.check("bar", D37_EXAMPLE)                                          # D37: the copy of a bar built with default_channel=3
+    ctx.check("bar-copy-mut", D37B_WITNESS)                                # audit round 4, D1: … and moved to channel 0 before it is copied
+    ctx.check("bar-copy-mut", dict(D37B_WITNESS, muts=[]))
+    ctx.check("bar-copy-mut", D42_EXAMPLE)                                 # D44 (known finding)
+    ctx.check("bar-copy-mut", D43_EXAMPLE)                                 # D45 (known finding)
     for i in range(ctx.n(300, 5000)):
         n, d = rng.choice(SIGS)
         cap = 96 * n // d
@@ -211,6 +302,15 @@ def generate(ctx):
         if i % 4 == 0:
             ctx.count("wrapper-states")
             ctx.check("bar", dict(inp, state=rng.choice(U.STATES[1:] + ["insort"])))
+        if i % 2 == 0:
+            # copy after mutation: the same bar (random default_channel), 0-2 public mutators in place, then the copy against the bar as it is NOW
+            minp = dict(inp, muts=BM.gen_muts(rng, chans))
+            if "dch" not in minp or rng.random() < 0.5:
+                minp["dch"] = rng.choice([None, 0, chans[0], chans[-1], 3, 5, 15])
+            if rng.random() < 0.25:
+                minp["state"] = rng.choice(U.STATES)
+            ctx.count("copy-after-mutation:" + "+".join(m[0] for m in minp["muts"]) if minp["muts"] else "copy-after-mutation:none")
+            ctx.check("bar-copy-mut", minp)
         ctx.corr("bar", P.op_bar(n, d, key, rel))
         ctx.corr("barCopy", P.op_barCopy(n, d, key, rel))
         if chans != (0,):
